@@ -14,6 +14,7 @@ N(s, c, e, sc) == [k |-> "num", s |-> s, c |-> c, e |-> e, scale |-> sc]
 S(cp) == [k |-> "str", cp |-> cp]
 D(y, m, d) == [k |-> "date", y |-> y, m |-> m, d |-> d]
 T(h, mi, s, ns, zk, off) == [k |-> "time", h |-> h, mi |-> mi, s |-> s, ns |-> ns, zk |-> zk, off |-> off, zn |-> ""]
+TZ(h, mi, s, zn) == [k |-> "time", h |-> h, mi |-> mi, s |-> s, ns |-> 0, zk |-> "zone", off |-> 0, zn |-> zn]     \* a time of day in a named zone
 DT(d, t) == [k |-> "dt", date |-> d, time |-> t]
 DTD(neg, sec, ns) == [k |-> "dtd", neg |-> neg, sec |-> sec, ns |-> ns]
 YMD(neg, mo) == [k |-> "ymd", neg |-> neg, mo |-> mo]
@@ -30,9 +31,13 @@ Base == <<
   Null, B(TRUE), B(FALSE),
   N(1, <<1>>, 0, 0), N(0, <<>>, 0, 0), N(1, <<>>, 0, 0), One, N(0, <<1>>, 0, 1), N(0, <<1>>, 0, 2), Two, N(0, <<1, 5>>, 0 - 1, 0), Big,
   S(<<>>), S(<<97>>), S(<<98>>), S(<<97, 97>>),
+  S(<<57344>>), S(<<65536>>),       \* U+E000 and U+10000: code point order and UTF-16 code unit order differ on this pair
   D(2021, 1, 1), D(2021, 1, 2), D(2020, 2, 29),
   T(10, 0, 0, 0, "utc", 0), T(11, 0, 0, 0, "utc", 0), T(12, 0, 0, 0, "offset", 3600),
   DT(D(2021, 1, 1), T(10, 0, 0, 0, "utc", 0)), DT(D(2021, 1, 1), T(11, 0, 0, 0, "offset", 3600)), DT(D(2021, 1, 2), T(0, 0, 0, 0, "utc", 0)),
+  \* one named zone on the days its offset changes: a local time that is skipped, one that is repeated, and ordinary ones
+  DT(D(2021, 3, 28), TZ(2, 30, 0, "Europe/Warsaw")), DT(D(2021, 3, 28), TZ(12, 0, 0, "Europe/Warsaw")),
+  DT(D(2021, 10, 31), TZ(2, 30, 0, "Europe/Warsaw")), DT(D(2021, 10, 31), TZ(12, 0, 0, "Europe/Warsaw")),
   DTD(FALSE, <<3, 6, 0, 0>>, 0), DTD(FALSE, <<8, 6, 4, 0, 0>>, 0), DTD(TRUE, <<1>>, 0),
   YMD(FALSE, <<1, 2>>), YMD(FALSE, <<1, 4>>), YMD(TRUE, <<1>>),
   L(<<>>), L(<<One>>), L(<<One, Two>>), L(<<B(TRUE)>>), L(<<B(FALSE)>>),
